@@ -29,6 +29,29 @@ def _fail(name, **kw):
     return ContractBroken(msg[:2000])
 
 
+def _mk_error(name):
+    """icontract matches the parameters of the error callable against the function's arguments: take none."""
+
+    def error():
+        return ContractBroken(f"contract {name} broken: {BROKEN[-1] if BROKEN else ''}")
+
+    return error
+
+
+RECORD_ONLY = True   # conditions record a broken contract and let the execution continue, so the boundary monitors still see it
+
+
+def _recording(cond):
+    import functools  # noqa: PLC0415
+
+    @functools.wraps(cond)
+    def wrapper(*args, **kwargs):
+        ok = cond(*args, **kwargs)
+        return True if RECORD_ONLY else ok
+
+    return wrapper
+
+
 def _rebind(orig, new):
     n = 0
     for mname, mod in list(sys.modules.items()):
@@ -53,6 +76,7 @@ def _ensure(orig, cond, name):
 # ----------------------------------------------------------------------------- conditions (named functions, argument names match)
 
 
+@_recording
 def cvar_weights_ok(values, failed_realizations, percentile, result):
     COUNTS["cvar_weights"] += 1
     failed = np.asarray(failed_realizations, dtype=bool)
@@ -71,6 +95,7 @@ def cvar_weights_ok(values, failed_realizations, percentile, result):
     return True
 
 
+@_recording
 def sort_select_ok(values, configured_weights, failed_realizations, first, last, result):
     COUNTS["sort_and_select"] += 1
     failed = np.asarray(failed_realizations, dtype=bool)
@@ -81,6 +106,7 @@ def sort_select_ok(values, configured_weights, failed_realizations, first, last,
     return ok
 
 
+@_recording
 def apply_bounds_ok(variables, lower_bounds, upper_bounds, truncation_types, result):
     COUNTS["apply_bounds"] += 1
     v, r = np.asarray(variables, dtype=float), np.asarray(result, dtype=float)
@@ -92,6 +118,7 @@ def apply_bounds_ok(variables, lower_bounds, upper_bounds, truncation_types, res
     return ok
 
 
+@_recording
 def failed_realizations_ok(objectives, perturbed_objectives, perturbation_min_success, result):
     COUNTS["failed_realizations"] += 1
     want = np.isnan(np.asarray(objectives)[..., 0])
@@ -104,6 +131,7 @@ def failed_realizations_ok(objectives, perturbed_objectives, perturbation_min_su
     return ok
 
 
+@_recording
 def estimator_weights_ok(self, functions, weights):
     COUNTS["estimator_weights"] += 1
     w, f = np.asarray(weights, dtype=float), np.asarray(functions, dtype=float)
@@ -115,6 +143,7 @@ def estimator_weights_ok(self, functions, weights):
     return ok
 
 
+@_recording
 def constraint_info_ok(self):
     COUNTS["constraint_info"] += 1
     for lo, up, vi in ((self.bound_lower, self.bound_upper, self.bound_violation), (self.linear_lower, self.linear_upper, self.linear_violation),
@@ -159,7 +188,7 @@ def install(groups=None):
         if orig is None:
             out[name] = 0
             return
-        new = icontract.ensure(cond, error=lambda name=name: ContractBroken(f"contract {name} broken: {BROKEN[-1] if BROKEN else ''}"))(orig)
+        new = icontract.ensure(cond, error=_mk_error(name))(orig)
         if method_of is not None:
             setattr(method_of, attr, new)
             out[name] = 1
@@ -174,13 +203,13 @@ def install(groups=None):
     if "estimator_weights" in wanted and "estimator_weights" not in _INSTALLED:
         cls = est.DefaultFunctionEstimator
         cls.calculate_function = icontract.require(
-            estimator_weights_ok, error=lambda: ContractBroken(f"contract estimator_weights broken: {BROKEN[-1] if BROKEN else ''}"))(cls.calculate_function)
+            estimator_weights_ok, error=_mk_error("estimator_weights"))(cls.calculate_function)
         _INSTALLED.add("estimator_weights")
         out["estimator_weights"] = 1
     if "constraint_info" in wanted and "constraint_info" not in _INSTALLED:
         cls = ci.ConstraintInfo
         cls.__post_init__ = icontract.ensure(
-            constraint_info_ok, error=lambda: ContractBroken(f"contract constraint_info broken: {BROKEN[-1] if BROKEN else ''}"))(cls.__post_init__)
+            constraint_info_ok, error=_mk_error("constraint_info"))(cls.__post_init__)
         _INSTALLED.add("constraint_info")
         out["constraint_info"] = 1
     return out
